@@ -456,3 +456,65 @@ def r13_3b(ctx):
                 "other source has none (the caller is told to sleep forever with a retransmission outstanding)", body=body, bb=bb)
     else:
         ctx.ok(('Interface::poll_at', 'combinators'), sample=dict(fn='Interface::poll_at', combine='min of the present deadlines'))
+
+
+@rule('R02.10', ['C02', 'C13', 'C16'], floor=1, clause='the pending fast-retransmit request is only consumed once the segment was handed to the device (a failed emit keeps it pending; the retransmission timer was already cleared)')
+def r02_10(ctx):
+    F = ctx.F
+    d = ctx.method(SOCK, 'dispatch')
+    ws = [w for w in F.field_writes() if w['fn'] == d.key and w['kind'] == 'store' and w['adt'] == SOCK and w['field'] == 'pending_fast_retransmit']
+    clears = [w for w in ws if const_int(simplify(store_origin(F, d, w))) == 0 or strip(simplify(store_origin(F, d, w))) == ('const', 'false')]
+    ctx.need(clears, "`pending_fast_retransmit = false` in tcp::Socket::dispatch")
+    okc = lambda f: f[0] == 'is' and f[2] in ('Continue', 'Ok') and any(l.endswith(('FnOnce::call_once', 'FnMut::call_mut')) for l in leafs(f[1]) if l.startswith('C:'))
+    for w in clears:
+        bad = unguarded(F, d, [w['bb']], okc)
+        if bad:
+            ctx.bad("dispatch|pending_fast_retransmit|cleared-before-emit", "tcp dispatch clears the pending fast-retransmit request before emit() succeeded: when the "
+                    "device cannot take the frame, the retransmission is forgotten with the timer already idle (unacknowledged data, no deadline)",
+                    body=d, bb=w['bb'], path=bad[0][1])
+        else:
+            ctx.ok(('pending_fast_retransmit', 'after-emit'), sample=dict(store='pending_fast_retransmit = false', guard='emit(..) returned Ok'))
+
+
+@rule('R02.11', ['C02', 'C13'], floor=1, clause='the retransmission timer is replaced by the fast-retransmit marker only when there is a data segment to fast-retransmit (with only a FIN in flight it stays armed)')
+def r02_11(ctx):
+    F = ctx.F
+    b = ctx.method(SOCK, 'process')
+    t = ctx.method(TIMER, 'set_for_fast_retransmit')
+    sites = [x[0] for x in b.calls() if b.callee_name(x[1]) == t.key]
+    ctx.need(sites, "set_for_fast_retransmit call in tcp::Socket::process")
+    has_data = lambda f: f[0] == 'bool' and f[2] is False and is_call(strip(f[1]), 'is_empty') and f"F:{SOCK}.tx_buffer" in leafs(f[1])
+    for s in sites:
+        bad = unguarded(F, b, [s], has_data)
+        if bad:
+            ctx.bad("process|fast-retransmit|no-data", "three duplicate ACKs start a fast retransmit (replacing the armed retransmission timer) even when the transmit "
+                    "buffer is empty: with only a FIN in flight nothing is resent and the timer ends up idle - the close never completes", body=b, bb=s, path=bad[0][1])
+        else:
+            ctx.ok(('fast-retransmit', 'needs-data'), sample=dict(call='timer.set_for_fast_retransmit()', guard='!tx_buffer.is_empty()'))
+
+
+@rule('R02.12', ['C02', 'C13'], floor=1, clause='when the retransmission timer expires while the peer window is closed and data is queued, the socket keeps a probe timer instead of going idle')
+def r02_12(ctx):
+    F = ctx.F
+    d = ctx.method(SOCK, 'dispatch')
+    idle = ctx.method(TIMER, 'set_for_idle')
+    sr = ctx.method(TIMER, 'should_retransmit')
+    fired = lambda f: f[0] == 'bool' and f[2] is True and is_call(strip(f[1]), 'should_retransmit')
+    ge = guard_edges(F, d, fired)
+    ctx.need(ge, "should_retransmit() test in tcp::Socket::dispatch")
+    sites = []
+    for x in d.calls():
+        if d.callee_name(x[1]) == idle.key:
+            # only the set_for_idle calls that lie behind the expired-timer edge
+            if not cut_sites(d, [x[0]], ge):
+                sites.append(x[0])
+    ctx.need(sites, "set_for_idle behind the expired retransmission timer")
+    open_or_empty = p_any(lambda f: f[0] == 'rel' and f[1] == 'Ne' and f"F:{SOCK}.remote_win_len" in leafs(f[2]) and const_int(simplify(f[3])) == 0,
+                          lambda f: f[0] == 'bool' and f[2] is True and is_call(strip(f[1]), 'is_empty') and f"F:{SOCK}.tx_buffer" in leafs(f[1]))
+    for s in sites:
+        bad = unguarded(F, d, [s], open_or_empty)
+        if bad:
+            ctx.bad("dispatch|rto-into-zero-window|idle", "after the retransmission timer expired the timer goes idle even if the peer window is zero and data is queued: "
+                    "nothing can be resent, no probe is scheduled, and a lost window update stalls the connection for good", body=d, bb=s, path=bad[0][1])
+        else:
+            ctx.ok(('rto', 'idle-only-when-sendable'), sample=dict(call='timer.set_for_idle()', guard='remote_win_len != 0 | tx_buffer.is_empty()'))
